@@ -165,6 +165,8 @@ type mtype struct {
 	name string  // Coq name of a struct / sum type
 	flds []fld3  // fields of a struct
 	key  *mtype  // key type of a map
+	// fourth mode only
+	big bool // a *big.Int seen as its value
 }
 
 func (t mtype) coq() string {
